@@ -11,6 +11,7 @@ mod m8;
 mod m9;
 mod m10;
 mod cli;
+mod m5p;
 mod util;
 use util::*;
 
@@ -61,6 +62,8 @@ fn main() {
         ("cli13", None) => cli::run_cli_flags(&args, "C13"),
         ("cli09", Some(p)) => m5::replay(&args, "C09", p),
         ("cli13", Some(p)) => m5::replay(&args, "C13", p),
+        ("c01p", None) => m5p::run_c01p(&args),
+        ("c01p", Some(p)) => m5::replay(&args, "C01", p),
         (other, _) => {
             eprintln!("unknown command {other}");
             std::process::exit(2);
